@@ -149,7 +149,7 @@ def declared_environment(out: Outcome) -> None:
     text = (REPO / "pyproject.toml").read_text()
     m = _re.search(r'requires-python\s*=\s*">=\s*3\.(\d+)', text)
     minor = int(m.group(1)) if m else 9
-    deps_block = _re.search(r"\ndependencies\s*=\s*\[(.*?)\]", text, _re.S)
+    deps_block = _re.search(r"\ndependencies\s*=\s*\[(.*?)\n\s*\]", text, _re.S)      # (up to the closing bracket on its own line: a requirement may carry extras, `pkg[extra]>=1`)
     declared = {_re.split(r"[<>=!~ \[]", d.strip().strip('",'))[0].lower().replace("-", "_") for d in (deps_block.group(1).split("\n") if deps_block else []) if d.strip().strip('",')}
     stdlib = set(sys.stdlib_module_names)
     # modules that a user's import can reach: the packages' __init__ modules and everything they (transitively) import inside the package
